@@ -19,7 +19,7 @@ theorem formatKids_append (w d : Nat) (a b : List Node) : formatKids w d (a ++ b
   | cons x r ih => simp [formatKids, ih, List.append_assoc]
 
 /-- whitespace-only text between block children contributes nothing to the layout … -/
-theorem ws_text_contributes_nothing (w d : Nat) (t : Str) (h : trimSpace t = []) : formatNode w d (.text t) = [] := by
+theorem ws_text_contributes_nothing (w d : Nat) (t : Str) (h : trimHtml t = []) : formatNode w d (.text t) = [] := by
   simp [formatNode, h]
 
 /-- … so the block loop over all children equals the loop over `collectChildren` (the children that are not whitespace-only text) -/
@@ -35,7 +35,7 @@ theorem block_loop_ignores_ws_text (w d : Nat) (kids : List Node) : formatKids w
       rw [ih]
       cases k with
       | text t =>
-        have : trimSpace t = [] := by simpa [isWsText] using hk
+        have : trimHtml t = [] := by simpa [isWsText] using hk
         simp [formatKids, formatNode, this]
       | elem _ _ _ => simp [isWsText] at hk
       | comment _ => simp [isWsText] at hk
@@ -126,30 +126,65 @@ theorem inline_text_normalisation_idempotent (s : Str) : normalizeInlineText (no
   normalizeInlineText_idem s
 
 /-- … and it only ever changes white space: the words of the text (`strings.Fields`) are the same before and after -/
-theorem inline_text_words_preserved (s : Str) (h : trimSpace s ≠ []) : fields (trimSpace (normalizeInlineText s)) = fields (trimSpace s) := by
-  have hb : (trimSpace s == []) = false := by simpa using h
-  have hW : ∀ w ∈ fields (trimSpace s), Word w := fields_words _
-  have hWne : fields (trimSpace s) ≠ [] := by
+theorem inline_text_words_preserved (s : Str) (h : trimHtml s ≠ []) : fieldsHtml (trimHtml (normalizeInlineText s)) = fieldsHtml (trimHtml s) := by
+  have hb : (trimHtml s == []) = false := by simpa using h
+  have hW : ∀ w ∈ fieldsHtml (trimHtml s), Word w := fields_words _
+  have hWne : fieldsHtml (trimHtml s) ≠ [] := by
     obtain ⟨c, hc, hcs⟩ := exists_nonspace_of_trim_ne s h
     exact fieldsAux_ne_nil _ [] (Or.inr ⟨c, hc, hcs⟩)
   obtain ⟨hhead, hlast⟩ := join_head_last _ hWne hW
-  have key : ∀ pre post : Str, (∀ x ∈ pre, isSpace x = true) → (∀ x ∈ post, isSpace x = true) →
-      fields (trimSpace (pre ++ joinWith [' '] (fields (trimSpace s)) ++ post)) = fields (trimSpace s) := by
+  have key : ∀ pre post : Str, (∀ x ∈ pre, isHtmlSpace x = true) → (∀ x ∈ post, isHtmlSpace x = true) →
+      fieldsHtml (trimHtml (pre ++ joinWith [' '] (fieldsHtml (trimHtml s)) ++ post)) = fieldsHtml (trimHtml s) := by
     intro pre post hp hq
     rw [trimSpace_margins pre _ post hp hq hhead hlast, fields_join _ hW]
   unfold normalizeInlineText
   simp only [hb, Bool.false_eq_true, ↓reduceIte]
-  by_cases h1 : (s.head?.map isSpace).getD false = true <;> by_cases h2 : (s.getLast?.map isSpace).getD false = true
-  · simpa [h1, h2] using key [' '] [' '] (by simp [isSpace_space]) (by simp [isSpace_space])
-  · simpa [h1, h2] using key [' '] [] (by simp [isSpace_space]) (by simp)
-  · simpa [h1, h2] using key [] [' '] (by simp) (by simp [isSpace_space])
+  by_cases h1 : (s.head?.map isHtmlSpace).getD false = true <;> by_cases h2 : (s.getLast?.map isHtmlSpace).getD false = true
+  · simpa [h1, h2] using key [' '] [' '] (by simp [isHtmlSpace_space]) (by simp [isHtmlSpace_space])
+  · simpa [h1, h2] using key [' '] [] (by simp [isHtmlSpace_space]) (by simp)
+  · simpa [h1, h2] using key [] [' '] (by simp) (by simp [isHtmlSpace_space])
   · simpa [h1, h2] using key [] [] (by simp) (by simp)
 
 /-- block text: trimmed, escaped once, on a line of its own -/
-theorem block_text_line (w d : Nat) (t : Str) (h : trimSpace t ≠ []) :
-    formatNode w d (.text t) = indentOf w d ++ escText (trimSpace t) ++ ['\n'] := by
-  have hb : (trimSpace t == []) = false := by simpa using h
+theorem block_text_line (w d : Nat) (t : Str) (h : trimHtml t ≠ []) :
+    formatNode w d (.text t) = indentOf w d ++ escText (trimHtml t) ++ ['\n'] := by
+  have hb : (trimHtml t == []) = false := by simpa using h
   simp [formatNode, hb]
+
+/-- TEXT WITHOUT HTML WHITE SPACE IS KEPT AS IT IS: a run of characters none of which is a space, tab, LF, FF or CR - no-break spaces, em
+    spaces, ideographic spaces included - comes out of the inline normalisation unchanged (fix `1244d65`: the formatter used Go's Unicode
+    notion of white space, `<td>&nbsp;</td>` became `<td></td>`) -/
+theorem text_without_html_space_unchanged (s : Str) (hne : s ≠ []) (h : ∀ c ∈ s, isHtmlSpace c = false) : normalizeInlineText s = s := by
+  obtain ⟨c, r, hs⟩ : ∃ c r, s = c :: r := by
+    cases s with
+    | nil => exact absurd rfl hne
+    | cons c r => exact ⟨c, r, rfl⟩
+  have hc : isHtmlSpace c = false := h c (by simp [hs])
+  obtain ⟨d, t, hrev⟩ : ∃ d t, s.reverse = d :: t := by
+    cases hr : s.reverse with
+    | nil => simp [hs] at hr
+    | cons d t => exact ⟨d, t, rfl⟩
+  have hd : isHtmlSpace d = false := h d (by
+    have : d ∈ s.reverse := by rw [hrev]; simp
+    simpa using this)
+  have htrim : trimHtml s = s := by
+    have := trimSpace_margins [] s [] (by simp) (by simp) ⟨c, r, hs, hc⟩ ⟨d, t, hrev, hd⟩
+    simpa using this
+  have hfields : fieldsHtml s = [s] := by
+    have := fieldsAux_word s h [] []
+    simp only [List.append_nil] at this
+    simp [fieldsHtml, this, fieldsHtmlAux, hne]
+  have hhead : (s.head?.map isHtmlSpace).getD false = false := by simp [hs, hc]
+  have hlast : (s.getLast?.map isHtmlSpace).getD false = false := by
+    have : s.getLast? = some d := by
+      have := congrArg List.head? hrev
+      simpa [List.head?_reverse] using this
+    simp [this, hd]
+  simp [normalizeInlineText, htrim, hfields, joinWith, hhead, hlast]
+  intro h0; exact absurd h0 hne
+
+example : normalizeInlineText ['\u00a0'] = ['\u00a0'] ∧ normalizeInlineText "10\u00a0km".toList = "10\u00a0km".toList
+    ∧ normalizeInlineText " a \t b ".toList = " a b ".toList := by decide
 
 /-- an element without element children is always kept on one line (rule 1 of shouldKeepInline) -/
 theorem text_only_is_inline (tag : Str) (kids : List Node) (h : kids.any FmtTree.isElem = false) : shouldKeepInline tag kids = true := by
